@@ -210,6 +210,8 @@ type c03Offer struct { // one checkpoint handed to the consumer, projected
 	OldOffset, Target    int64
 	Phys                 int64 // offset of the on-disk file covered by the checkpoint
 	Overlay              bool
+	Trans                [][2]int64 // the overlay bowl's work lists
+	OvlFiles, MoveFiles  []int64
 	Gob                  []byte
 }
 
@@ -254,6 +256,15 @@ func c03Project(pi *c03PatchInfo, c *patcher.Checkpoint, g []byte) (c03Offer, er
 		return o, fmt.Errorf("checkpoint without writer checkpoint")
 	}
 	o.Written, o.Phys = wc.Offset, wc.Offset
+	if c.BowlCheckpoint != nil {
+		if bc, ok := c.BowlCheckpoint.Data.(*bowl.OverlayBowlCheckpoint); ok && bc != nil {
+			for _, t := range bc.Transpositions {
+				o.Trans = append(o.Trans, [2]int64{t.SourceIndex, t.TargetIndex})
+			}
+			o.OvlFiles = append(o.OvlFiles, bc.OverlayFiles...)
+			o.MoveFiles = append(o.MoveFiles, bc.MoveFiles...)
+		}
+	}
 	if oc, ok := wc.Data.(*bowl.OverlayEntryWriterCheckpoint); ok && oc != nil {
 		o.Overlay, o.Phys = true, oc.OverlayOffset
 	}
@@ -767,11 +778,11 @@ func (cfg *c03Config) coqOffers(from *c03Offer, sc *c03Consumer) string {
 	for i := range sc.offers {
 		offs[i] = coqOffer(&sc.offers[i])
 	}
-	stop := 0
+	stop, status := 0, 0
 	if sc.stopAt > 0 && len(sc.offers) >= sc.stopAt {
-		stop = sc.stopAt
+		stop, status = sc.stopAt, 1
 	}
-	return fmt.Sprintf("($ID%%N, %s, %s, %s, %d%%nat, %s)", cfg.pi.Coq(), ck, lib.CoqList(asked), stop, lib.CoqList(offs))
+	return fmt.Sprintf("($ID%%N, %s, %s, %s, %s, %d%%nat, %d%%N, %s)", lib.CoqBool(!cfg.overlay), cfg.pi.Coq(), ck, lib.CoqList(asked), stop, status, lib.CoqList(offs))
 }
 
 func coqOffer(o *c03Offer) string {
@@ -781,8 +792,12 @@ func coqOffer(o *c03Offer) string {
 		}
 		return lib.CoqN(int64(i))
 	}
-	return fmt.Sprintf("(mkOffer %s %s %s %s %s %s %s)", idx(o.MsgIndex), idx(o.SrcIndex), lib.CoqN(o.FileIndex), lib.CoqBool(o.Kind == patcher.FileKindBsdiff),
-		lib.CoqN(o.Written), lib.CoqZ(o.OldOffset), lib.CoqN(o.Target))
+	tr := make([]string, len(o.Trans))
+	for i, t := range o.Trans {
+		tr[i] = fmt.Sprintf("(%d, %d)", t[0], t[1])
+	}
+	return fmt.Sprintf("(mkOffer %s %s %s %s %s %s %s ([%s])%%N %s %s)", idx(o.MsgIndex), idx(o.SrcIndex), lib.CoqN(o.FileIndex), lib.CoqBool(o.Kind == patcher.FileKindBsdiff),
+		lib.CoqN(o.Written), lib.CoqZ(o.OldOffset), lib.CoqN(o.Target), strings.Join(tr, "; "), lib.CoqNList(o.OvlFiles), lib.CoqNList(o.MoveFiles))
 }
 
 // ---------------------------------------------------------------- driver
